@@ -225,10 +225,13 @@ class ModuleAstInfo:
         Returns:
             The iterable of lines that contain the target identifiers.
         """
-        scope_names = dict(cls._get_scope_names(ast_node))
+        # A name can be defined more than once (e.g., a property and its setter).
+        scope_names: dict[str, list[int]] = {}
+        for scope_name_, lineno in cls._get_scope_names(ast_node):
+            scope_names.setdefault(scope_name_, []).append(lineno)
         for target_name in target_scope_names:
-            if (lineno := scope_names.get(target_name)) is not None:
-                yield lineno
+            if (linenos := scope_names.get(target_name)) is not None:
+                yield from linenos
             else:
                 _LOGGER.warning(
                     "Target scope name '%s' not found in AST. Did you specify the right name?",
